@@ -368,7 +368,7 @@ func genC29(t *rapid.T) c29Case {
 			for j := 0; j < nf; j++ {
 				f := g.own(s, "stream-continue")
 				f.Method, f.Stream, f.Why = method, xID, "foreign-continue"
-				f.Cancel = rapid.IntRange(0, 3).Draw(t, "fccancel") == 0
+				f.Cancel = rapid.IntRange(0, 2).Draw(t, "fccancel") == 0
 				switch rapid.IntRange(0, 3).Draw(t, "fchow") {
 				case 0:
 					f.Ident = (f.Ident + 1 + rapid.IntRange(0, c.Idents-2).Draw(t, "fcident")) % c.Idents
@@ -851,7 +851,7 @@ func (rc *c29Run) do(op c29Op) (res c29Result) {
 		path := "/" + op.Method + "/init"
 		if op.Kind == "stream-init" {
 			streamKey = op.ID
-			sc := c29StreamScript{Op: op.ID, Turns: op.Turns, Hold: op.Hold, TurnHolds: op.TurnHolds}
+			sc := c29StreamScript{Op: op.ID, Turns: op.Turns, Hold: op.Hold, TurnHolds: op.TurnHolds, InitFail: op.InitFail, TurnFails: op.TurnFails}
 			b, _ := json.Marshal(sc)
 			body = lib.BuildRequest(op.Method, lib.ScriptBatch(string(b)), lib.ReqOpts{RequestID: op.ID})
 		} else {
@@ -1378,12 +1378,9 @@ func judgeC29(c c29Case, ops map[string]c29Op, results map[string]c29Result, eve
 						if e.Kind == "shutdown_begin" && e.Seq < r.RespSeq && e.Info == strconv.Itoa(op.Worker) {
 							ended = e.Op
 						}
-						if e.Kind == "close_begin" && e.Slot == op.Slot && e.Seq < r.RespSeq {
-							ended = "close"
-						}
 					}
 					if ended == "" {
-						out.Violate("C29/live-session-lost", "op %s: the owner's use of slot %d (ttl %dms, opened %v before) answered session_lost (%q) although no DELETE, CloseSession or shutdown touching it had been sent and its state was never closed; %s",
+						out.Violate("C29/live-session-lost", "op %s: the owner's use of slot %d (ttl %dms, opened %v before) answered session_lost (%q) although no DELETE, CloseSession or shutdown touching it had been sent; %s",
 							id, op.Slot, c.Slots[op.Slot].TTLms, r.SendTime.Sub(o.T), lib.Short(r.ErrMsg, 80), history(op.Slot))
 					} else {
 						out.Label("use:lost-after-ender")
@@ -1440,6 +1437,7 @@ func judgeC29(c c29Case, ops map[string]c29Op, results map[string]c29Result, eve
 				what := "foreign-continue:" + r.Foreign
 				if op.Cancel {
 					what = "foreign-cancel:" + r.Foreign
+					out.Label("foreign-cancel")
 				}
 				out.Label(what)
 				if ss := stageReq[id]; len(ss) > 0 {
@@ -1555,10 +1553,10 @@ var propC29 = lib.Prop[c29Case]{
 		"producer and exchange stream calls bearing the session (/init + /exchange continuations, producer batch limit 1) whose init handler and every Produce/Exchange turn record an interval on the session state and can be held on a gate (and then return an error or panic) while another request bearing the session is fired; continuations and cancels of such a stream presented by another identity, at another worker, with a bit-flipped session token or without the session header; " +
 		"barriers force 'second request arrives while the first holds the session', 'close completes while another waits', 'open after Drain returned'. Oracle: invariants over the recorded history (see DESIGN C29). " +
 		"Non-trivial: at least two requests bearing the same session overlapped in time.",
-	Gen:          genC29,
-	Run:          runC29,
-	Essential:    []string{"overlap", "use:ok", "use:lost", "foreign:ident", "foreign:garbled", "open:while-draining", "delete:204", "expired:sent-after-ttl", "open:ok", "stream-init:ok:s29_prod", "stream-init:ok:s29_exch", "stream-continue:ok:s29_prod", "stream-continue:ok:s29_exch",
-		"foreign-continue:ident", "foreign-continue:garbled", "foreign-continue:nosession", "foreign-cancel:garbled", "stream-cancel:ok", "stream-stage:error", "stream-stage:panic",
+	Gen: genC29,
+	Run: runC29,
+	Essential: []string{"overlap", "use:ok", "use:lost", "foreign:ident", "foreign:garbled", "open:while-draining", "delete:204", "expired:sent-after-ttl", "open:ok", "stream-init:ok:s29_prod", "stream-init:ok:s29_exch", "stream-continue:ok:s29_prod", "stream-continue:ok:s29_exch",
+		"foreign-continue:ident", "foreign-continue:garbled", "foreign-continue:nosession", "foreign-cancel", "stream-cancel:ok", "stream-stage:error", "stream-stage:panic",
 		"foreign:ident-other-domain", "foreign:ident-empty-principal-vs-anonymous", "use:ok-live"},
 	EssentialMin: 60,
 	Assumptions: []string{
